@@ -424,3 +424,169 @@ def replay_angle(case):
             "Plane-Plane": lambda: (g.Plane(pa, V(*uf)), g.Plane(pb, V(*vf))), "Line-Plane": lambda: (g.Line(pa, V(*uf)), g.Plane(pb, V(*vf)))}[name]()
     r = _call(g.angle, a, b)
     return dict(fails=r[0] == "exc", observed=repr(r[1]))
+
+
+# -- construction (C09) ---------------------------------------------------------------
+
+def construction(seed, n_obj, max_perms):
+    """C09: polygons from every vertex order (exhaustive up to 5 vertices, sampled above) with duplicated vertices, negation;
+    polyhedra from shuffled faces in sampled orientations; intersection results fed back as inputs"""
+    g = load_repo()
+    acc = Acc()
+    rng = K.make_rng(seed + 9)
+
+    def P(v):
+        return g.Point(*[O.to_number(c, "float") for c in v])
+
+    def f3(p):
+        return (float(p[0]), float(p[1]), float(p[2]))
+
+    def ccw_about(points, nrm):
+        """all-pairs: every vertex strictly left of every directed edge, seen against the normal"""
+        m = len(points)
+        for i in range(m):
+            a, b = points[i], points[(i + 1) % m]
+            e = [b[k] - a[k] for k in range(3)]
+            for j in range(m):
+                if j in (i, (i + 1) % m):
+                    continue
+                w = [points[j][k] - a[k] for k in range(3)]
+                cr = (e[1] * w[2] - e[2] * w[1], e[2] * w[0] - e[0] * w[2], e[0] * w[1] - e[1] * w[0])
+                if sum(cr[k] * nrm[k] for k in range(3)) <= 1e-9:
+                    return False
+        return True
+
+    def check_polygon(pg, verts, klass, case):
+        pts = [f3(p) for p in pg.points]
+        nrm = f3(pg.plane.n)
+        exp = sorted(f3(v) for v in verts)
+        if sorted(pts) != exp and not (len(pts) == len(exp) and all(any(max(abs(a[k] - b[k]) for k in range(3)) < 1e-9 for b in exp) for a in pts)):
+            acc.fail(klass, "vertex set %r, expected the %d distinct given vertices" % (pts, len(exp)), case)
+            return False
+        if len(pts) != len(exp):
+            acc.fail(klass, "%d vertices kept, %d distinct given" % (len(pts), len(exp)), case)
+            return False
+        if not ccw_about(pts, nrm):
+            acc.fail(klass, "vertices are not a counter-clockwise convex cycle about the normal %r: %r" % (nrm, pts), case)
+            return False
+        c = [sum(p[k] for p in pts) / len(pts) for k in range(3)]
+        if max(abs(c[k] - float(pg.center_point[k])) for k in range(3)) > 1e-9:
+            acc.fail(klass, "centre %r is not the vertex mean %r" % (f3(pg.center_point), c), case)
+            return False
+        return True
+
+    for pg in K.polygons(rng, n_obj):
+        verts = list(pg[1])
+        n = len(verts)
+        if n <= 5:
+            orders = list(itertools.permutations(verts))
+            if len(orders) > max_perms:
+                orders = rng.sample(orders, max_perms)
+        else:
+            orders = [rng.sample(verts, n) for _ in range(max_perms)]
+        for order in orders:
+            order = list(order)
+            if rng.random() < 0.4:  # repeats
+                for _ in range(rng.randint(1, 3)):
+                    order.insert(rng.randrange(len(order) + 1), rng.choice(verts))
+            klass = "polygon n=%d%s" % (n, " with repeats" if len(order) > n else "")
+            acc.case(klass)
+            case = dict(polygon=ser(("Polygon", tuple(order))))
+            r = _call(lambda: g.ConvexPolygon(tuple(P(v) for v in order)))
+            if r[0] == "exc":
+                acc.fail(klass, "constructor raised %r" % (r[1],), case)
+                continue
+            if not check_polygon(r[1], verts, klass, case):
+                continue
+            neg = _call(lambda: -r[1])
+            if neg[0] == "exc":
+                acc.fail(klass, "negation raised %r" % (neg[1],), case)
+                continue
+            n0, n1 = f3(r[1].plane.n), f3(neg[1].plane.n)
+            if max(abs(n0[k] + n1[k]) for k in range(3)) > 1e-9 or not check_polygon(neg[1], verts, klass + " negated", case):
+                acc.fail(klass, "-polygon: normal %r (expected %r reversed) or orientation wrong" % (n1, n0), case)
+                continue
+            nn = _call(lambda: -(neg[1]))
+            if nn[0] == "exc" or max(abs(f3(nn[1].plane.n)[k] - n0[k]) for k in range(3)) > 1e-9 or not (nn[1] == r[1]) or not nn[1].eq_with_normal(r[1]):
+                acc.fail(klass, "-(-p) does not match p including the normal", case)
+            acc.sample(dict(klass=klass, given=ser(tuple(order)), result=[f3(p) for p in r[1].points]))
+    for ph in K.polyhedra(rng, n_obj):
+        faces = [list(f) for f in ph[1]]
+        V_exact = O.polyhedron_vertices(ph[1])
+        E_exact = O.polyhedron_edges(ph[1])
+        for trial in range(max(2, max_perms // 6)):
+            fs = [list(f) for f in faces]
+            rng.shuffle(fs)
+            fs = [f[::-1] if rng.random() < 0.5 else f for f in fs]
+            fs = [f[i:] + f[:i] for f in fs for i in [rng.randrange(len(f))]]
+            klass = "polyhedron F=%d" % len(faces)
+            acc.case(klass)
+            case = dict(polyhedron=ser(("Polyhedron", tuple(tuple(f) for f in fs))))
+            r = _call(lambda: g.ConvexPolyhedron(tuple(g.ConvexPolygon(tuple(P(v) for v in f)) for f in fs)))
+            if r[0] == "exc":
+                acc.fail(klass, "constructor raised %r" % (r[1],), case)
+                continue
+            body = r[1]
+            c = f3(body.center_point)
+            mean = [sum(float(v[k]) for v in V_exact) / len(V_exact) for k in range(3)]
+            bad = None
+            if len(body.point_set) != len(V_exact) or len(body.segment_set) != len(E_exact) or len(body.convex_polygons) != len(faces):
+                bad = "V %d E %d F %d, expected %d %d %d" % (len(body.point_set), len(body.segment_set), len(body.convex_polygons), len(V_exact), len(E_exact), len(faces))
+            elif len(body.point_set) - len(body.segment_set) + len(body.convex_polygons) != 2:
+                bad = "V - E + F != 2"
+            elif max(abs(c[k] - mean[k]) for k in range(3)) > 1e-9:
+                bad = "centre %r is not the vertex mean %r" % (c, mean)
+            elif not O.contains(ph, tuple(Fraction(x).limit_denominator(10 ** 6) for x in mean)):
+                bad = "centre not inside"
+            else:
+                for f in body.convex_polygons:
+                    nrm, p0 = f3(f.plane.n), f3(f.points[0])
+                    if sum(nrm[k] * (p0[k] - c[k]) for k in range(3)) <= 1e-9:
+                        bad = "a face normal does not point away from the interior"
+                        break
+                    if not ccw_about([f3(p) for p in f.points], nrm):
+                        bad = "a face is not counter-clockwise about its outward normal"
+                        break
+            if bad:
+                acc.fail(klass, bad, case)
+            else:
+                acc.sample(dict(klass=klass, V=len(body.point_set), E=len(body.segment_set), F=len(body.convex_polygons)))
+    # results of intersections fed back as inputs
+    for a, b, label in K.convex_pairs(rng, max(20, n_obj * 3), families=("pg_ph", "ph_ph")):
+        exact = O.intersect(a, b)
+        if exact is None or exact[0] != "Polygon" or not admitted(a, b, exact):
+            continue
+        res = _call(g.intersection, O.to_lib(a, "float"), O.to_lib(b, "float"))
+        if res[0] == "exc" or type(res[1]).__name__ != "ConvexPolygon":
+            continue
+        klass = "fed back:%s" % label
+        acc.case(klass)
+        pts = list(res[1].points)
+        rng.shuffle(pts)
+        again = _call(lambda: g.ConvexPolygon(tuple(pts)))
+        if again[0] == "exc" or not (again[1] == res[1]) or abs(again[1].area() - res[1].area()) > 1e-9 * max(1.0, res[1].area()):
+            acc.fail(klass, "a polygon rebuilt from the shuffled vertices of an intersection result differs from it (%r)" % (again[1],), dict(a=ser(a), b=ser(b), label=label))
+    return acc.result()
+
+
+def replay_construction(case):
+    g = load_repo()
+
+    def P(v):
+        return g.Point(*[O.to_number(c, "float") for c in v])
+    try:
+        if "polygon" in case:
+            pg = deser(case["polygon"])
+            r = g.ConvexPolygon(tuple(P(v) for v in pg[1]))
+            distinct = sorted(set(tuple(map(float, v)) for v in pg[1]))
+            ok = sorted((float(p.x), float(p.y), float(p.z)) for p in r.points) == distinct
+            return dict(fails=not ok, observed=[(p.x, p.y, p.z) for p in r.points])
+        if "polyhedron" in case:
+            ph = deser(case["polyhedron"])
+            r = g.ConvexPolyhedron(tuple(g.ConvexPolygon(tuple(P(v) for v in f)) for f in ph[1]))
+            c = r.center_point
+            ok = all(sum(f.plane.n[k] * (f.points[0][k] - c[k]) for k in range(3)) > 0 for f in r.convex_polygons)
+            return dict(fails=not ok, observed="normals outward: %s" % ok)
+    except Exception as e:
+        return dict(fails=True, observed=repr(e))
+    return dict(fails=False)
